@@ -954,9 +954,54 @@ class RegM(RegView):
         raise OutOfSubset("_category_unit_valid.%s" % name)
 
 
+def _message_loop(st):
+    """a loop that only accumulates text in local variables (no calls, no stores through references,
+    no exits): its effect on an opaque collection is 'the assigned names hold opaque text'"""
+    names = set()
+
+    def expr_ok(e):
+        for n in ast.walk(e):
+            if isinstance(n, (ast.Call, ast.Yield, ast.YieldFrom, ast.Await, ast.Lambda)):
+                return False
+        return True
+
+    def walk(stmts):
+        for x in stmts:
+            if isinstance(x, ast.Assign):
+                if not all(isinstance(t, ast.Name) for t in x.targets) or not expr_ok(x.value):
+                    return False
+                names.update(t.id for t in x.targets)
+            elif isinstance(x, ast.AugAssign):
+                if not isinstance(x.target, ast.Name) or not expr_ok(x.value):
+                    return False
+                names.add(x.target.id)
+            elif isinstance(x, ast.If):
+                if not expr_ok(x.test) or not walk(x.body) or not walk(x.orelse):
+                    return False
+            elif isinstance(x, ast.Pass):
+                pass
+            else:
+                return False
+        return True
+
+    if st.orelse or not isinstance(st.target, ast.Name):
+        return None
+    if not walk(st.body):
+        return None
+    names.add(st.target.id)
+    return names
+
+
 def for_hook(I, st, it, frame):
     if isinstance(it, RegQList):
         return it.for_hook(I, st, frame)
+    if isinstance(it, OpaqueSeq):
+        names = _message_loop(st)
+        if names is None:
+            raise OutOfSubset("loop over %s at line %d is not a pure text accumulation" % (it.what, st.lineno))
+        for n in names:
+            frame.vars[n] = OPAQUE
+        return True
     return NotImplemented
 
 
